@@ -18,10 +18,12 @@ WFNoZero(S)   == \A k \in 1..Len(S.vals) : S.vals[k] # 0
 WF(S)         == WFShape(S) /\ WFLen(S) /\ WFInRange(S) /\ WFDistinct(S)
 WFStrict(S)   == WF(S) /\ WFNoZero(S)
 
-\* name of the first failing clause (for verdict messages)
-WFWhy(S) == IF ~WFLen(S) THEN "len(vals)#len(subs)"
-            ELSE IF ~WFInRange(S) THEN "subscript-out-of-range"
-            ELSE IF ~WFDistinct(S) THEN "duplicate-subscript"
+\* name of the first failing clause (for verdict messages); WFWhyNZ does not look at the values
+WFWhyNZ(S) == IF ~WFLen(S) THEN "len(vals)#len(subs)"
+              ELSE IF ~WFInRange(S) THEN "subscript-out-of-range"
+              ELSE IF ~WFDistinct(S) THEN "duplicate-subscript"
+              ELSE "ok"
+WFWhy(S) == IF WFWhyNZ(S) # "ok" THEN WFWhyNZ(S)
             ELSE IF ~WFNoZero(S) THEN "explicit-zero"
             ELSE "ok"
 
